@@ -246,6 +246,8 @@ def inline_new_helpers(facts, known):
     if not ok_helpers:
         return 0
     counter = [0]
+    used = set()
+    facts.new_helpers_inlined = used
 
     def expand_in(body, depth=0):
         def fn(n):
@@ -259,6 +261,7 @@ def inline_new_helpers(facts, known):
             if len(args) != len(h.params):
                 return None
             counter[0] += 1
+            used.add(p)
             suffix = "h%d" % counter[0]
             hb = _rename_ids(copy.deepcopy(h.body), suffix, set())
             stmts = []
